@@ -106,6 +106,15 @@ CHECKS['C14'] = dict(
     design='4 (C14)',
     technique='Coq proofs about check_missing / nodes_with_paths and the error classes of the evaluator model; sampled vm_compute correspondence; oracle comparing the listed paths with an independent tree walk (incl. aliased placeholders)')
 
+CHECKS['C07'] = dict(
+    text='Machine-checked: C07_gate (an unsafe !call/!bind/!eval/f-string/!import node never runs: error, no state, no event), C07_no_unsafe_execution (in EVERY successful build every '
+         'call / bind / exec / import event belongs to a node of the evaluated tree that is safe - global invariant over the whole evaluator, any tree, any reference graph), '
+         'C07_arguments_checked_first (under require_all_safe the check precedes the cache), C07_merge_spreads_unsafety + C07_container_flags_spread + C07_inherited_mark_sticky '
+         '(no merge rule, adoption or re-propagation clears an explicit, source-level or inherited unsafe mark). The full taint clause is REFUTED on the faithful model with a witness that '
+         'replays on the implementation (C07_taint_refuted / _order_dependent = known finding D21). Partial: what evaluated user code does with safe values is Python\'s.',
+    design='4 (C07), 6 (D7, D8, D21)',
+    technique='Coq invariant proof that every event is emitted by a safe node + flag-arithmetic monotonicity lemmas; exhaustive T2 correspondence of the safety arithmetic; sampled merge and eval correspondence with safe=False sources; provenance/taint oracle with unique markers and per-node recording targets for replays')
+
 NOT_APPLICABLE = {}
 
 
